@@ -3,7 +3,7 @@ import dbcommon
 
 META = {
  "engine": "tla-pipeline",
- "text": "TLC exhausts Pipeline.tla (commit layering, merger take/compute/apply, persist compute/apply, index creation on a populated table in four separate steps, clean close) for IndexesAgree (no loss, no duplication), StatsExact and LayersParallel in every intermediate state; every state published by the real pipeline (hook inside the state mutex logs btree + every layer of every index) must flatten, for every index, to exactly the committed rows under the right keys and have exact statistics (TraceDb.tla TableOK), and each update must be a legal commit / merge / persist step of the previous physical state (StepOK), under free-running concurrent clients with a 3-5 ms persist interval",
+ "text": "TLC exhausts Pipeline.tla (commit layering, merger take/compute/apply, persist compute/apply, index creation on a populated table in four separate steps, table load on the running database, clean close) for IndexesAgree (no loss, no duplication), StatsExact and LayersParallel in every intermediate state; every state published by the real pipeline (hook inside the state mutex logs btree + every layer of every index) must flatten, for every index, to exactly the committed rows under the right keys and have exact statistics (TraceDb.tla TableOK), and each update must be a legal commit / merge / persist step of the previous physical state (StepOK), under free-running concurrent clients with a 3-5 ms persist interval",
  "note": "trusts TLC, hook placement inside the state mutex, the driver's byte-level key check (entry key = Ixspec.Key(row), strictly ascending) logged as keyok; universe <= 8 rows per table",
  "technique": "TLA+ model checking (TLC) + trace validation of every published state (commit / merge / persist steps)",
 }
@@ -16,6 +16,9 @@ def run(ctx):
     ctx.tlc_mc("Pipeline.tla", "Pipeline_dev_alter.cfg", timeout=300, expect_violation="LayersParallel", count=False)
     # and persisting a table only when its FIRST index is modified (before fix c9087ac) loses deletes in a new index
     ctx.tlc_mc("Pipeline.tla", "Pipeline_dev_f20.cfg", timeout=300, expect_violation="ReopenSeesAll", count=False)
+    # table load on the running database done by the caller instead of the merger (before fix 90a29de)
+    ctx.tlc_mc("Pipeline.tla", "Pipeline_dev_load.cfg", timeout=300, expect_violation="QueueFits", count=False)
+    ctx.tlc_mc("Pipeline.tla", "Pipeline_dev_load6.cfg", timeout=300, expect_violation="IndexesAgree", count=False)
     dbcommon.run_db(ctx, "admin", 20 if ctx.thorough() else 1, "C16a")
     dbcommon.run_db(ctx, "tran", 30 if ctx.thorough() else 2, "C16c")
     dbcommon.run_db(ctx, "tranpairs", 30 if ctx.thorough() else 2, "C16p")
